@@ -15,6 +15,7 @@ import Driver.BusOps
 import Driver.ElectricOps
 import Driver.ShaftOps
 import Driver.CompOps
+import Driver.EngineOps
 open Lean Driver
 
 def dispatch (op : String) (j : Json) : Except String Json :=
@@ -27,6 +28,8 @@ def dispatch (op : String) (j : Json) : Except String Json :=
   | "electric" => electricOp op j
   | "shaft" => shaftOp op j
   | "comp" => compOp op j
+  | "engine" => engineOp op j
+  | "hours" => hoursOp j
   | _ => .error s!"unknown op family in '{op}'"
 
 def handle (line : String) : String :=
@@ -41,6 +44,10 @@ def handle (line : String) : String :=
       | .ok out => (obj [("id", id), ("out", out)]).compress
       | .error e =>
         if e.startsWith "reject:" then (obj [("id", id), ("reject", Json.str (e.drop 7).toString)]).compress
+        else if e.startsWith "need:" then
+          match e.splitOn ":" with
+          | [_, name, key] => (obj [("id", id), ("out", obj [("need", Json.arr #[Json.str name, Json.str key])])]).compress
+          | _ => (obj [("id", id), ("error", Json.str e)]).compress
         else (obj [("id", id), ("error", Json.str e)]).compress
 
 partial def loop (h : IO.FS.Stream) (out : IO.FS.Stream) : IO Unit := do
